@@ -88,7 +88,7 @@ impl Deliverer {
         }
     }
 
-    fn offer(&mut self, b: Block, reoffered: bool) -> Delivered {
+    pub fn offer(&mut self, b: Block, reoffered: bool) -> Delivered {
         let tip_before = self.node.tip();
         let (hash, id) = (b.hash, b.id);
         let (outcome, steps) = guarded_add(&mut self.node, b.clone(), self.step_bound);
@@ -114,6 +114,15 @@ impl Deliverer {
             tip_before,
             tip_after,
         }
+    }
+
+    /// Next pending block whose parent has become known to the node, if any.
+    pub fn take_ready_pending(&mut self) -> Option<Block> {
+        let pos = self
+            .pending
+            .iter()
+            .position(|p| self.node.chain.blocks.contains_key(&p.previous_block_hash))?;
+        Some(self.pending.remove(pos))
     }
 
     /// Offers `b`; afterwards re-offers pending blocks whose parent has become known, until no
@@ -176,4 +185,32 @@ pub fn all_permutations(n: usize) -> Vec<Vec<usize>> {
     let mut out = vec![];
     rec(&mut vec![], &mut vec![false; n], n, &mut out);
     out
+}
+
+
+/// True if, for `node`, the chain ending in `b` is not connected to anything it stores: walking
+/// back from `b` through the harness' block table reaches a block the node does not hold before
+/// reaching one it does (other than through the genesis block). Such a delivery goes through the
+/// "blocks received out-of-order" branch of add_block (known finding F10) unless the node answers
+/// with a retry request.
+pub fn is_rootless(node: &Node, table: &crate::observe::BlockTable, b: &Block) -> bool {
+    if node.chain.blocks.is_empty() {
+        return false;
+    }
+    let mut cur = b.previous_block_hash;
+    loop {
+        if cur == [0; 32] {
+            return false;
+        }
+        match node.chain.blocks.get(&cur) {
+            Some(nb) => {
+                if nb.in_longest_chain {
+                    return false;
+                }
+                cur = nb.previous_block_hash;
+            }
+            None => return true,
+        }
+        let _ = table;
+    }
 }
